@@ -79,13 +79,22 @@ def kindChar : Cont → Char
 
 def mix (h x : UInt64) : UInt64 := (h ^^^ x) * 1099511628211
 
+def pairHash (k v : Nat) : UInt64 := mix (mix 0x9E3779B97F4A7C15 (UInt64.ofNat k)) (UInt64.ofNat v)
+
+/-- contents digest of one container: a chain over the elements of a sequence; for maps the (wrapping) sum of the
+    pair hashes — the storage order of a map is not part of its contents -/
+def contDigest (w : World) (x : Cont) : UInt64 :=
+  match x with
+  | .map _ kvs => kvs.foldl (fun a kv => a + pairHash (code w false kv.1) (code w false kv.2)) 0
+  | _ => x.toks.foldl (fun h t => mix h (UInt64.ofNat (code w x.isBox t))) 1469598103934665603
+
 def digest (w : World) : UInt64 :=
   w.objs.foldl (fun h cx =>
     let (c, x) := cx
     let h := mix h (UInt64.ofNat (c + 1))
     let h := mix h (UInt64.ofNat (kindChar x).toNat)
     let h := mix h (UInt64.ofNat x.len)
-    x.toks.foldl (fun h t => mix h (UInt64.ofNat (code w x.isBox t))) h) 1469598103934665603
+    mix h (contDigest w x)) 1469598103934665603
 
 def longList : Nat := 48
 
@@ -95,8 +104,7 @@ def showCont (w : World) (c : Nat) : String :=
   | some x =>
     let k := kindChar x
     if x.toks.length > longList then
-      let h := x.toks.foldl (fun h t => mix h (UInt64.ofNat (code w x.isBox t))) 1469598103934665603
-      s!" {c}:{k}#{x.len}:{h.toNat}"
+      s!" {c}:{k}#{x.len}:{(contDigest w x).toNat}"
     else
     match x with
     | .map _ kvs =>
